@@ -59,13 +59,14 @@ class Prices:
         if amount == Decimal(0):
             return Decimal(0)
 
-        for pair, price_fun in [
-                (Pair(from_symbol, to_symbol), lambda price: price),
-                (Pair(to_symbol, from_symbol), lambda price: Decimal(1) / price),
+        # When using the inverse pair divide by the price instead of multiplying by 1 / price, which is not exact.
+        for pair, convert_fun in [
+                (Pair(from_symbol, to_symbol), lambda price: amount * price),
+                (Pair(to_symbol, from_symbol), lambda price: amount / price),
         ]:
             last_bar = self._last_bars.get(pair)
             if last_bar:
-                return amount * price_fun(last_bar.close)
+                return convert_fun(last_bar.close)
         raise errors.NoPrice(f"No price to convert from {from_symbol} to {to_symbol}")
 
     def convert_value_map(self, values: value_map.ValueMapDict, to_symbol: str) -> Decimal:
